@@ -74,4 +74,12 @@ theorem lerp_at_segment : ∀ (ts : List Rat) (ps : List V), ts.length = ps.leng
             rw [if_neg (fun h => hle h.2)]
             exact ih
 
+theorem clip01_bounds (x : Rat) : 0 ≤ clip01 x ∧ clip01 x ≤ 1 := by
+  unfold clip01
+  split
+  · exact ⟨le_refl _, by norm_num⟩
+  · split
+    · exact ⟨by norm_num, le_refl _⟩
+    · constructor <;> linarith
+
 end CBV.C16
